@@ -201,3 +201,84 @@ VH_ENTRY vh_setglyph() {
   ASSERT(s->m_advance.x == w.glyphs[s->glyph()]->theAdvance().x && s->m_advance.y == 0.f, "advance taken from the real glyph");
   VH_END();
 }
+
+// =================================================================================== C04: attachment forest
+// ---- Slot::setAttr(gr_slatAttTo): re-attaching the cursor slot to any window slot keeps the forest well formed
+VH_ENTRY vh_attach() {
+  World w; vh_make_face(w); vh_make_segment(w); vh_make_forest(w);
+  ASSUME(inv_stream(w) && inv_forest(w));
+  unsigned start, len, ctx; window(start, len, ctx);
+  VM_SETUP(w, start, len, ctx, 8);
+  Slot *cur = reg.is;
+  // attach target: position in the slot map, enumerated concretely (ATTVAL); ATTVAL < 0 = any value outside the map (must be a no-op)
+#ifndef ATTVAL
+#define ATTVAL 0
+#endif
+#if ATTVAL >= 0
+  int16 val = ATTVAL;
+#else
+  int16 val = (int16)nondet_u16();
+  ASSUME((uint16)val >= smap.size());
+#endif
+  uint8 subindex = nondet_u8();
+  Slot *oldpar = cur->m_parent;
+  cur->setAttr(w.seg, gr_slatAttTo, subindex, val, smap);
+  ASSERT(inv_forest(w), "setAttr(attach.to): forest well formed (acyclic, each child exactly once in its parent's chain)");
+  ASSERT(inv_stream(w), "setAttr(attach.to) leaves the stream alone");
+  Slot *np = cur->m_parent;
+  ASSERT(np == oldpar || np == 0 || ((uint16)val < smap.size() && np == smap[(uint16)val]), "new parent is the old one, none, or the designated window slot");
+  VH_END();
+}
+
+// ---- Segment::linkClusters: the bases form one sibling chain containing each base exactly once
+VH_ENTRY vh_link_clusters() {
+  World w; vh_make_face(w); vh_make_segment(w); vh_make_forest(w);
+  ASSUME(inv_stream(w) && inv_forest(w));
+  if (NS == 0) { VH_END(); return; }
+  w.seg->linkClusters(w.seg->m_first, w.seg->m_last);
+  ASSERT(inv_stream(w), "linkClusters leaves the stream alone");
+  // first base in chain order: first base of the stream for LTR, last base for RTL
+  unsigned nbases = 0; Slot *firstbase = 0, *lastbase = 0;
+  for (unsigned i = 0; i < NS; ++i) if (!w.sl[i]->m_parent) { ++nbases; if (!firstbase) firstbase = w.sl[i]; lastbase = w.sl[i]; }
+  Slot *head = (w.seg->m_dir & 1) ? lastbase : firstbase;
+  unsigned seen = 0; Slot *p = head; Slot *visited[NS + 1];
+  for (unsigned k = 0; k < NS + 1 && p; ++k) {
+    ASSERT(!p->m_parent, "base chain holds bases only");
+    for (unsigned j = 0; j < k; ++j) ASSERT(visited[j] != p, "no base twice");
+    visited[k] = p;
+    ++seen; p = p->m_sibling;
+  }
+  ASSERT(p == 0 && seen == nbases, "every base occurs exactly once in the chain from the first base");
+  VH_END();
+}
+
+// =================================================================================== C05: associations
+// ---- ASSOC opcode: before/after become min/max over the referenced window slots, or stay unchanged
+VH_ENTRY vh_assoc_op() {
+  World w; vh_make_face(w); vh_make_segment(w);
+  ASSUME(inv_stream(w) && inv_assoc(w));
+  unsigned start, len, ctx; window(start, len, ctx);
+  VM_SETUP(w, start, len, ctx, 8);
+  uint8_t *params = vh_bytes(3);
+  ASSUME(params[0] <= 2);                       // number of slot references (VARARGS operand)
+  const byte *dp = params;
+  Slot *cur = reg.is;
+  uint32 b0 = cur->m_before, a0 = cur->m_after;
+  bool cont = op_body(ASSOC)(dp, sp, sb, reg);
+  ASSERT(cont, "ASSOC continues");
+  ASSERT(dp == params + 1 + params[0], "ASSOC consumes 1 + n parameter bytes");
+  ASSERT(inv_assoc(w) && inv_stream(w), "associations still index char-infos; stream untouched");
+  bool any = false; uint32 mn = 0xffffffffu, mx = 0;
+  for (unsigned k = 0; k < params[0]; ++k) {
+    int off = (int8_t)params[1 + k];
+    int idx = (int)ctx + off;                  // position in the slot map relative to its first entry
+    if (idx >= -1 && idx < (int)len + 1) {
+      Slot *t = idx == -1 ? (start ? w.sl[start - 1] : 0) : (start + idx < NS ? w.sl[start + idx] : 0);
+      if (idx == (int)len && start + len >= NS) t = 0;
+      if (t) { if (!any || t->m_before < mn) mn = t->m_before; if (!any || t->m_after > mx) mx = t->m_after; any = true; }
+    }
+  }
+  (void)b0; (void)a0; (void)mn; (void)mx;
+  free(params);
+  VH_END();
+}
